@@ -78,7 +78,9 @@ Qed.
 Lemma merge_model_go d s0 e0 rest : 0 <= d -> sortedb Z.leb (map fst ((s0, e0) :: rest)) = true ->
   merge_model d ((s0, e0) :: rest) = Some (go d s0 e0 rest).
 Proof.
-  intros Hd Hs. unfold merge_model. rewrite Hs. cbn [negb].
+  intros Hd Hs. unfold merge_model, m_merge_shift, m_merge_unshift.
+  change (sortedb m_merge_sorted_pair) with (sortedb Z.leb). change m_merge_new_run with (fun s p : Z => p <? s).
+  rewrite Hs. cbn [negb].
   rewrite !shift_if, !unshift_if by exact Hd.
   cbn [map fst snd tl max_accumulate].
   rewrite valid_scan. destruct (scan_starts_stops d rest s0 e0) as [H1 H2].
@@ -343,7 +345,7 @@ Lemma mask_is_positive_coverage I size : 0 <= size ->
   (forall i, In i I -> fst i < snd i /\ 0 <= fst i /\ snd i <= size) ->
   mask_model I size = Some (mask_spec I size).
 Proof.
-  intros Hs Hwf. unfold mask_model.
+  intros Hs Hwf. unfold mask_model, m_mask_keep.
   replace (existsb (fun i => size <? snd i) I) with false.
   2:{ symmetry. apply not_true_is_false. intros H. apply existsb_exists in H. destruct H as [i [Hi H]].
       apply Z.ltb_lt in H. specialize (Hwf i Hi). lia. }
@@ -463,7 +465,7 @@ Lemma mask_is_positive_coverage_gen I size : 0 <= size ->
   (forall i, In i I -> 0 <= fst i /\ fst i <= snd i /\ snd i <= size) ->
   mask_model I size = Some (mask_spec I size).
 Proof.
-  intros Hs Hwf. unfold mask_model.
+  intros Hs Hwf. unfold mask_model, m_mask_keep.
   replace (existsb (fun i => size <? snd i) I) with false.
   2:{ symmetry. apply not_true_is_false. intros H. apply existsb_exists in H. destruct H as [i [Hi H]].
       apply Z.ltb_lt in H. specialize (Hwf i Hi). lia. }
